@@ -17,8 +17,8 @@ use crate::{
     genr::bytes::{CLASSES, Payload},
     kernel::{Check, Finding, Fnv, Rng, RunCtx, Stats, Tier, Violation, prng, worker},
     model::bgzf::walk,
-    seams::read::{ReadPlan, SimRead},
-    seams::write::{Fault, Kind as EKind, SimWrite, WritePlan},
+    seams::read::{Chunking, Eintr, ReadPlan, SimRead},
+    seams::write::{Fault, Kind as EKind, Short, SimWrite, WEintr, WritePlan},
 };
 
 pub struct C03;
@@ -74,6 +74,43 @@ pub struct Plan {
     /// explicit decision list (reified schedule of a failing run); overrides `sched` while it lasts
     #[serde(default)]
     pub replay: Option<Vec<u32>>,
+    /// 0: the sink accepts / the source delivers everything asked for; otherwise the seed of a
+    /// short-write + Interrupted pattern (writer sink) or short-read + Interrupted pattern (reader
+    /// source).  Neither may change any result.
+    #[serde(default)]
+    pub io: u64,
+}
+
+/// Short transfers are kept >= ~1000 bytes on average so that the step bound (a liveness oracle)
+/// stays meaningful: every sink/source call is a scheduling point.
+fn io_write_plan(io: u64, wp: &mut WritePlan) {
+    if io == 0 {
+        return;
+    }
+    let mut r = Rng::new(io);
+    wp.short = match r.below(3) {
+        0 => Short::Random { max: 2000 + r.usize_below(40_000), seed: r.next_u64() },
+        1 => Short::Sparse { seed: r.next_u64(), one_in: 2 + r.below(4) },
+        _ => Short::Random { max: 30_000 + r.usize_below(40_000), seed: r.next_u64() },
+    };
+    if r.bool() {
+        wp.eintr = WEintr::Random { seed: r.next_u64(), one_in: 2 + r.below(5) };
+    }
+}
+
+fn io_read_plan(io: u64, rp: &mut ReadPlan) {
+    if io == 0 {
+        return;
+    }
+    let mut r = Rng::new(io);
+    rp.chunking = match r.below(3) {
+        0 => Chunking::Random { max: 2000 + r.usize_below(40_000), seed: r.next_u64() },
+        1 => Chunking::Sparse { seed: r.next_u64(), one_in: 2 + r.below(4) },
+        _ => Chunking::Random { max: 30_000 + r.usize_below(40_000), seed: r.next_u64() },
+    };
+    if r.bool() {
+        rp.eintr = Eintr::Random { seed: r.next_u64(), one_in: 2 + r.below(5) };
+    }
 }
 
 fn strategy(p: &Plan, n_steps_hint: u64) -> Strategy {
@@ -234,7 +271,7 @@ impl C03 {
                     }
                 };
                 let n_blocks = walk(&reference).map(|w| w.members.len()).unwrap_or(1) as u64;
-                let wp = match &p.fault {
+                let mut wp = match &p.fault {
                     MtFault::SinkFail { k, sticky } => WritePlan::with_fault(Fault::FailCall {
                         k: *k,
                         kind: EKind::Other,
@@ -242,8 +279,10 @@ impl C03 {
                     }),
                     _ => WritePlan::plain(),
                 };
+                io_write_plan(p.io, &mut wp);
+                stats.probe_if("short_or_interrupted_io_under_schedule", p.io != 0);
                 let sink = SimWrite::new(wp).with_yield(sim::yield_now);
-                let bound = 400 * (n_blocks + ops.len() as u64 + 4);
+                let bound = 400 * (n_blocks + ops.len() as u64 + 4) * if p.io != 0 { 8 } else { 1 };
                 let strat = strategy(p, 6 * (n_blocks + ops.len() as u64));
                 let sink2 = sink.clone();
                 worker::set_quiet(true);
@@ -346,7 +385,9 @@ impl C03 {
                 let index = c02::make_index(&built.flat, false).expect("gzi");
                 let file = Arc::new(file);
                 let n_blocks = built.flat.members.len() as u64;
-                let bound = 600 * (n_blocks + ops.len() as u64 + 4);
+                io_read_plan(p.io, &mut rp);
+                stats.probe_if("short_or_interrupted_io_under_schedule", p.io != 0);
+                let bound = 600 * (n_blocks + ops.len() as u64 + 4) * if p.io != 0 { 8 } else { 1 };
                 let strat = strategy(p, 8 * (n_blocks + ops.len() as u64));
                 let flat = built.flat.clone();
                 let ops2 = ops.clone();
@@ -565,6 +606,7 @@ impl Check for C03 {
             scenario,
             fault,
             replay: None,
+            io: if rng.chance(1, 3) { rng.next_u64() | 1 } else { 0 },
         })
         .unwrap()
     }
@@ -625,6 +667,13 @@ impl Check for C03 {
                     }
                 }
             }
+        }
+        // plain sink/source (the decision list no longer fits: seeded strategy)
+        if p.io != 0 {
+            let mut q = p.clone();
+            q.io = 0;
+            q.replay = None;
+            push(q);
         }
         // workload: with the original (seeded) strategy, since a decision list only fits one workload
         let base = {
